@@ -26,9 +26,11 @@ package main
 
 import (
 	"bytes"
+	"encoding/json"
 	"flag"
 	"fmt"
 	"go/ast"
+	"go/parser"
 	"go/printer"
 	"go/token"
 	"os"
@@ -769,4 +771,55 @@ func (c *Ctx) emitPins(m string, sitePkgs []string, outDir string, rep map[strin
 	propsDir := filepath.Join(filepath.Dir(filepath.Clean(outDir)), "Props")
 	_, err = writeIfChanged(filepath.Join(propsDir, "Pin"+m+".lean"), b.String())
 	return err
+}
+
+// ---------------------------------------------------------------------------------------------
+// -apifuncs: the exported functions / methods of some files with their line ranges (bin/api-coverage)
+
+var apiFuncs = flag.String("apifuncs", "", "comma-separated .go files relative to -repo: print their exported functions and methods (JSON: file, name, start and end line) and exit")
+
+func listAPIFuncs(repo, files string) {
+	type rec struct {
+		File  string `json:"file"`
+		Name  string `json:"name"`
+		Start int    `json:"start"`
+		End   int    `json:"end"`
+		Skip  string `json:"skipped,omitempty"`
+	}
+	out := []rec{}
+	fset := token.NewFileSet()
+	for _, rel := range strings.Split(files, ",") {
+		rel = strings.TrimSpace(rel)
+		if rel == "" {
+			continue
+		}
+		src, err := os.ReadFile(filepath.Join(repo, rel))
+		if err != nil {
+			out = append(out, rec{File: rel, Skip: err.Error()})
+			continue
+		}
+		if skipByBuildTag(string(src)) {
+			out = append(out, rec{File: rel, Skip: "not built by this toolchain (build constraint)"})
+			continue
+		}
+		f, err := parser.ParseFile(fset, rel, src, parser.SkipObjectResolution)
+		if err != nil {
+			out = append(out, rec{File: rel, Skip: err.Error()})
+			continue
+		}
+		for _, d := range f.Decls {
+			fd, ok := d.(*ast.FuncDecl)
+			if !ok || fd.Body == nil || !fd.Name.IsExported() {
+				continue
+			}
+			name := fd.Name.Name
+			if r := recvName(fd); r != "" {
+				name = r + "." + name
+			}
+			out = append(out, rec{File: rel, Name: name, Start: fset.Position(fd.Pos()).Line, End: fset.Position(fd.End()).Line})
+		}
+	}
+	b, _ := json.MarshalIndent(out, "", " ")
+	os.Stdout.Write(append(b, '\n'))
+	os.Exit(0)
 }
